@@ -4,6 +4,7 @@ import (
 	"encoding/json"
 	"github.com/privacybydesign/gabi/big"
 	"github.com/privacybydesign/gabi/gabikeys"
+	"github.com/privacybydesign/gabi/rangeproof"
 	"github.com/privacybydesign/gabi/revocation"
 )
 
@@ -220,6 +221,85 @@ func vpxWireProofD(p *ProofD) (*ProofD, bool) {
 		return nil, false
 	}
 	return out, true
+}
+
+// vpxWireWitness: a witness as it is read back from storage or received (JSON).
+func vpxWireWitness(w *revocation.Witness) (*revocation.Witness, bool) {
+	bts, err := json.Marshal(w)
+	if err != nil {
+		return nil, false
+	}
+	out := &revocation.Witness{}
+	if err := json.Unmarshal(bts, out); err != nil {
+		return nil, false
+	}
+	return out, true
+}
+
+func init() {
+	vpHarnesses["vpC18_O4"] = vpC18_O4
+}
+
+// C18-O4: protocol messages survive JSON transport with unchanged meaning. A
+// disclosure proof with a disclosed attribute, a hidden attribute carrying a true
+// range statement and a non-revocation part verifies after transport exactly as
+// before, reports the same disclosed values and the same proven statement; a
+// stored witness read back verifies and has the same values; a message with a
+// negative integer is refused by the encoding rather than altered.
+func vpC18_O4() {
+	pk, sk := vpKeys(0, 5, 1024, true)
+	upd, err := revocation.NewAccumulator(sk)
+	vpAssume(err == nil)
+	acc, err := upd.SignedAccumulator.UnmarshalVerify(pk)
+	vpAssume(err == nil)
+	w, err := revocation.RandomWitness(sk, acc)
+	vpAssume(err == nil)
+	w.SignedAccumulator = upd.SignedAccumulator
+	attrs := []*big.Int{vpBigBits("secret", 255), vpBigBits("a1", 256), vpBigBits("a2", 256), w.E}
+	vpAssume(attrs[0].Cmp(w.E) != 0 && attrs[1].Cmp(w.E) != 0 && attrs[2].Cmp(w.E) != 0)
+	sig, err := SignMessageBlock(sk, pk, attrs)
+	vpAssume(err == nil)
+	cred := &Credential{Signature: sig, Pk: pk, Attributes: attrs, NonRevocationWitness: w}
+	ctx, nonce := vpBigBits("ctx", 256), vpBigBits("nonce", 80)
+
+	if vpBool("witnessOnly") {
+		stored, ok := vpxWireWitness(w)
+		vpAssert("a stored witness is read back", ok && stored != nil)
+		if !ok {
+			return
+		}
+		vpAssert("a witness read back verifies and has the same values", stored.Verify(pk) == nil && stored.U.Cmp(w.U) == 0 && stored.E.Cmp(w.E) == 0)
+		return
+	}
+	bound := vpBig("bound")
+	vpAssume(bound.Sign() >= 0 && attrs[2].Cmp(bound) >= 0 && new(big.Int).Sub(attrs[2], bound).BitLen() <= 255)
+	stmts := map[int][]*rangeproof.Statement{2: {{Sign: 1, Factor: 1, Bound: bound}}}
+	b, err := cred.CreateDisclosureProofBuilder([]int{1}, stmts, true)
+	vpAssume(err == nil)
+	// (randomizers of the secret key and of attribute 2 kept above 2^580: recorded finding of C11-O1)
+	lo, hi := new(big.Int).Lsh(big.NewInt(1), 581), new(big.Int).Lsh(big.NewInt(1), 591)
+	b.attrRandomizers[2] = vpBigRange("r2", lo, hi)
+	bl := ProofBuilderList{b}
+	c, err := bl.ChallengeWithRandomizers(ctx, nonce, map[string]*big.Int{"secretkey": vpBigRange("r0", lo, hi)}, false)
+	vpAssume(err == nil)
+	pl, err := bl.BuildDistributedProofList(c, nil)
+	vpAssume(err == nil)
+	proof := pl[0].(*ProofD)
+	if vpBool("negativeField") {
+		proof.ADisclosed[1] = new(big.Int).Neg(new(big.Int).Add(proof.ADisclosed[1], big.NewInt(1)))
+		_, ok := vpxWireProofD(proof)
+		vpAssert("a message with a negative integer is refused by the encoding", !ok)
+		return
+	}
+	received, ok := vpxWireProofD(proof)
+	vpAssume(ok) // (honest responses are negative only on a 2^-80 tail)
+	before := ProofList{proof}.Verify([]*gabikeys.PublicKey{pk}, ctx, nonce, false, nil)
+	after := ProofList{received}.Verify([]*gabikeys.PublicKey{pk}, ctx, nonce, false, nil)
+	vpAssert("a proof verifies after transport exactly as before", before && after)
+	vpAssert("transported proof reports the same disclosed values", len(received.ADisclosed) == 1 && received.ADisclosed[1] != nil && received.ADisclosed[1].Cmp(attrs[1]) == 0)
+	t1, f1, b1 := proof.RangeProofs[2][0].ProvenStatement()
+	t2, f2, b2 := received.RangeProofs[2][0].ProvenStatement()
+	vpAssert("transported proof reports the same proven statement", t1 == t2 && f1 == f2 && b1.Cmp(b2) == 0)
 }
 
 // C11-O6: transport. An honest disclosure proof with non-revocation part sent over
